@@ -1,10 +1,14 @@
 (* Props/C13.v — property C13: node failures surface as identifiable, unwrappable errors naming
    the failing node path through nested graphs; the step-limit sentinel and context cancellation
-   are matchable the same way; interrupts are not wrapped; panics in node bodies and tool calls
-   are errors of the run.  Statements only; proofs in Proofs/Errors.v, Proofs/ErrorsRun.v and
-   Proofs/ErrorsFwd.v.  Model: Model/Errors.v (error terms, errors.Is / errors.As, the wrappers of
-   compose/error.go, the run loop's error paths over a forest of nested graphs). *)
-From Eino Require Import Base.Util Model.Errors Proofs.Errors Proofs.ErrorsRun Proofs.ErrorsFwd Proofs.ErrorsMsg Proofs.ErrorsOrigin Proofs.ErrorsE2E.
+   are matchable the same way; interrupts are not wrapped; panics in node bodies, tool calls and
+   stream forwarders are errors of the run / error items.  Statements only; proofs in
+   Proofs/Errors.v (wrapper algebra), ErrorsRun.v (run loop), ErrorsMsg.v (message path),
+   ErrorsOrigin.v (leaf origins), ErrorsE2E.v (end to end, nesting fuel), ErrorsFwd.v (panic
+   containment in the graph model), ErrorsFwdStream.v (forwarders on their own).
+   Models: Model/Errors.v (error terms, errors.Is / errors.As, the wrappers of compose/error.go,
+   the run loop's error paths over a forest of nested graphs, the public paradigms) and
+   Model/ErrorsFwd.v (MergeStreamReaders over forwarded sources) — both evaluated by Corr/C13.v. *)
+From Eino Require Import Base.Util Model.Errors Model.ErrorsFwd Proofs.Errors Proofs.ErrorsRun Proofs.ErrorsFwd Proofs.ErrorsMsg Proofs.ErrorsOrigin Proofs.ErrorsE2E Proofs.ErrorsFwdStream.
 Open Scope string_scope.
 
 (* ------------------------------------------------------------------ the path *)
@@ -35,21 +39,21 @@ Print Assumptions node_named_in_message.
 (* ... and conversely a task that ends with an error is not swallowed: the step fails and that
    error, wrapped under the node's key, is among the legal answers (whatever the other tasks of
    the step did). *)
-Theorem node_failure_reported : forall F stream rec all loop k st rest items n es' e',
+Theorem node_failure_reported : forall F stream rec all loop br k st rest items n es' e',
   In n st -> exec_node F stream rec items false n = NErr es' -> In e' es' ->
   is_interrupt_task e' = false ->
   any_fuel (map (fun n => (node_key n, exec_node F stream rec items false n)) st) = false ->
-  exists es, steps F stream rec all loop (S k) (st :: rest) items false = GFail es /\
+  exists es, steps F stream rec all loop br (S k) (st :: rest) items false = GFail es /\
              In (wrap_node (node_key n) e') es.
 Proof. exact step_reports_failure. Qed.
 Print Assumptions node_failure_reported.
 
 (* non-vacuity: nesting depth 3, two parallel failures at the innermost level *)
 Definition ex_forest : forest :=
-  [ mkGraph false [[NLam "first" FI BOk]; [NSub "a" 1]] false 0;
-    mkGraph true  [[NSub "b" 2; NLam "side" FT BOk]] false 0;
-    mkGraph false [[NSub "c" 3]] false 0;
-    mkGraph false [[NLam "n" FS (BFail (Wrapf (Leaf 0))); NLam "m" FI (BFail (Custom 1 7))]] false 0 ].
+  [ mkGraph false [[NLam "first" FI BOk]; [NSub "a" 1]] false 0 BrNone;
+    mkGraph true  [[NSub "b" 2; NLam "side" FT BOk]] false 0 BrNone;
+    mkGraph false [[NSub "c" 3]] false 0 BrNone;
+    mkGraph false [[NLam "n" FS (BFail (Wrapf (Leaf 0))); NLam "m" FI (BFail (Custom 1 7))]] false 0 BrNone ].
 
 Example node_error_path_nonvacuous :
   map (fun a => match a with AErr e => (np_of e, msg_path e, is_ (Leaf 0) e, as_custom 1 e) | _ => ([], [], false, None) end)
@@ -60,20 +64,26 @@ Proof. vm_compute. reflexivity. Qed.
 
 (* End to end, by induction on the nesting depth: in every well-nested forest ([forward]: sub-graph
    indices point forward, decided by [forwardb]), if going down from the top graph through
-   sub-graph nodes every graph reaches the stage of the next node of p (the stages before it
-   succeed, the step limit leaves a step) and the last node is a leaf whose task ends with the
+   sub-graph nodes every graph reaches the stage of the next node of p (the stages before it are
+   passed quietly — every task of them ends without error, leaves nothing on its stream and does
+   not cancel, whatever kind of node it is, [quiet_stages]; plain successful lambdas are,
+   [ok_quiet] — and the step limit leaves a step) and the last node is a leaf whose task ends with the
    non-interrupt error r ([fails_at]) — whatever the sibling nodes at every level do — then the
    public call, in every paradigm, has among its legal answers the error r wrapped along exactly
    p: the node path read off the wrapper and the one printed in the message are p (followed by
    the path r itself carried, if it is the error of a graph the node body ran). *)
 Theorem failing_node_reported : forall g F' par p r,
-  forward (g :: F') -> fails_at (g :: F') (stream_of par) g p r ->
+  forward (g :: F') -> fails_at (g :: F') (stream_of par) (S (List.length (g :: F'))) g p r ->
   In (AErr (top_error par (wrap_path p r))) (answers (g :: F') par false None) /\
   (is_interrupt_error r = false ->
      msg_path (top_error par (wrap_path p r)) = (p ++ np_of r)%list /\
      np_of (top_error par (wrap_path p r)) = (p ++ np_of r)%list).
 Proof. exact failing_node_reported_lemma. Qed.
 Print Assumptions failing_node_reported.
+
+Theorem plain_lambdas_are_quiet : forall F stream rec pre,
+  forallb (forallb ok_node) pre = true -> quiet_stages F stream rec pre.
+Proof. exact ok_quiet. Qed.
 
 (* a well-nested forest never runs out of nesting fuel: the distinguished out-of-fuel answer is
    not an answer of the public call (the hypothesis any_fuel = false of the per-step theorems
@@ -86,19 +96,27 @@ Theorem forwardb_decides : forall F, forwardb F = true -> forward F.
 Proof. exact forwardb_sound. Qed.
 
 Example failing_node_reported_nonvacuous :
-  forward ex_forest /\
-  fails_at ex_forest true (mkGraph false [[NLam "first" FI BOk]; [NSub "a" 1]] false 0)
-           ["a"; "b"; "c"; "n"] (wrap_stream TransformByStream (Wrapf (Leaf 0))).
+  (* the path to the failing node passes, at the top level, a stage with a sub-graph that succeeds
+     and a ToolsNode whose calls succeed: quiet stages need not be plain lambdas *)
+  let top := mkGraph false [[NLam "first" FI BOk; NSub "fine" 4; NTools "tools" [TOk; TOk]]; [NSub "a" 1]] false 0 BrNone in
+  let F := [ top;
+             mkGraph true  [[NSub "b" 2; NLam "side" FT BOk]] false 0 BrNone;
+             mkGraph false [[NSub "c" 3]] false 0 BrNone;
+             mkGraph false [[NLam "n" FS (BFail (Wrapf (Leaf 0))); NLam "m" FI (BFail (Custom 1 7))]] false 0 BrNone;
+             mkGraph false [[NLam "x" FC BOk]; [NLam "y" FT BOk]] false 0 BrNone ] in
+  forward F /\
+  fails_at F true (S (List.length F)) top ["a"; "b"; "c"; "n"] (wrap_stream TransformByStream (Wrapf (Leaf 0))).
 Proof.
-  split; [apply forwardb_sound; vm_compute; reflexivity|].
-  eapply (fa_sub _ _ _ [[NLam "first" FI BOk]] [NSub "a" 1%nat] [] "a" 1%nat);
-    [reflexivity|reflexivity|cbn; lia|left; reflexivity|reflexivity|].
-  eapply (fa_sub _ _ _ [] [NSub "b" 2%nat; NLam "side" FT BOk] [] "b" 2%nat);
-    [reflexivity|reflexivity|cbn; lia|left; reflexivity|reflexivity|].
-  eapply (fa_sub _ _ _ [] [NSub "c" 3%nat] [] "c" 3%nat);
-    [reflexivity|reflexivity|cbn; lia|left; reflexivity|reflexivity|].
-  eapply (fa_leaf _ _ _ [] _ [] (NLam "n" FS (BFail (Wrapf (Leaf 0)))));
-    [reflexivity|reflexivity|cbn; lia|left; reflexivity|reflexivity|reflexivity|left; reflexivity|reflexivity].
+  cbv zeta. split; [apply forwardb_sound; vm_compute; reflexivity|].
+  eapply (fa_sub _ _ _ _ [[NLam "first" FI BOk; NSub "fine" 4%nat; NTools "tools" [TOk; TOk]]] [NSub "a" 1%nat] [] "a" 1%nat);
+    [reflexivity| |cbn; lia|left; reflexivity|reflexivity|].
+  { intros st n [<-|[]] [<-|[<-|[<-|[]]]]; vm_compute; reflexivity. }
+  eapply (fa_sub _ _ _ _ [] [NSub "b" 2%nat; NLam "side" FT BOk] [] "b" 2%nat);
+    [reflexivity|intros st n []|cbn; lia|left; reflexivity|reflexivity|].
+  eapply (fa_sub _ _ _ _ [] [NSub "c" 3%nat] [] "c" 3%nat);
+    [reflexivity|intros st n []|cbn; lia|left; reflexivity|reflexivity|].
+  eapply (fa_leaf _ _ _ _ [] _ [] (NLam "n" FS (BFail (Wrapf (Leaf 0)))));
+    [reflexivity|intros st n []|cbn; lia|left; reflexivity|reflexivity|reflexivity|left; reflexivity|reflexivity].
 Qed.
 
 (* Before the repair of F-C13c the two wrapping functions extended the wrapper they were given in
@@ -107,9 +125,9 @@ Qed.
    [sA; x2; x1; x] — not a path of nodes.  The legal answers name one real path each. *)
 Definition f13c_forest : forest :=
   [ mkGraph false [[NLam "src" FS (BItem (Internal NodeRunError [] ["x"] (Leaf 0)))];
-                   [NSub "sA" 1; NSub "sB" 2]] false 0;
-    mkGraph false [[NLam "x1" FC BOk]] false 0;
-    mkGraph false [[NLam "x2" FC BOk]] false 0 ].
+                   [NSub "sA" 1; NSub "sB" 2]] false 0 BrNone;
+    mkGraph false [[NLam "x1" FC BOk]] false 0 BrNone;
+    mkGraph false [[NLam "x2" FC BOk]] false 0 BrNone ].
 
 Theorem shared_wrapper_v2_refuted :
   let legal := map (fun a => match a with AErr e => msg_path e | _ => [] end)
@@ -223,7 +241,7 @@ Print Assumptions sentinels_matchable_run.
 (* and these are the errors the loop makes: a cyclic graph whose nodes all succeed runs into the
    limit whatever the limit is; a run whose context is cancelled fails with the cancellation *)
 Theorem step_limit_reported : forall F stream d g,
-  g_loop g = true -> g_stages g <> [] -> forallb (forallb ok_node) (g_stages g) = true ->
+  g_loop g = true -> g_br g = BrOk -> g_stages g <> [] -> forallb (forallb ok_node) (g_stages g) = true ->
   run_graph F stream (S d) g [] false = GFail [new_graph_run_error (Leaf id_exceed)].
 Proof. exact cyclic_run_hits_limit. Qed.
 
@@ -232,9 +250,27 @@ Theorem cancellation_reported : forall F stream d g items,
   run_graph F stream (S d) g items true = GFail [new_graph_run_error (Wrapf (Leaf id_canceled))].
 Proof. exact cancelled_run. Qed.
 
+(* the other error the loop makes on behalf of user code: the condition of the branch after the
+   last stage fails with u (all tasks of the stage having succeeded quietly).  The run fails with
+   u under key-free framework wrappers — so u is recoverable by [orig_recoverable] — and names no
+   node (a branch is not a node). *)
+Theorem branch_failure_reported : forall F stream rec all loop k st u,
+  (forall n, In n st -> exec_node F stream rec [] false n = NOk [] false) ->
+  steps F stream rec all loop (BrFail u) (S k) [st] [] false = GFail [branch_error (branch_origin stream u)] /\
+  exists ws, branch_error (branch_origin stream u) = apply_ws ws u /\ keys_of ws = [].
+Proof. exact branch_failure_lemma. Qed.
+
+Example branch_failure_nonvacuous :
+  let F := [ mkGraph false [[NSub "s" 1]] false 0 BrNone;
+             mkGraph false [[NLam "x" FS BOk]; [NLam "y" FI BOk]] false 0 (BrFail (Wrapf (Custom 1 3))) ] in
+  map (fun a => match a with AErr e => (np_of e, msg_path e, as_custom 1 e) | _ => ([], [], None) end)
+      (answers F PStream false None ++ answers F PInvoke false None)%list
+  = [ (["s"], ["s"], Some 3%N); (["s"], ["s"], Some 3%N) ].
+Proof. vm_compute. reflexivity. Qed.
+
 Example sentinels_nonvacuous :
-  let F := [ mkGraph false [[NSub "s" 1]] false 0;
-             mkGraph false [[NLam "x" FI BOk]; [NLam "y" FT BOk]] true 5 ] in
+  let F := [ mkGraph false [[NSub "s" 1]] false 0 BrNone;
+             mkGraph false [[NLam "x" FI BOk]; [NLam "y" FT BOk]] true 5 BrOk ] in
   map (fun a => match a with AErr e => (np_of e, is_ (Leaf id_exceed) e, is_ (Leaf id_canceled) e) | _ => ([], false, false) end)
       (answers F PCollect false None ++ answers F PInvoke true None)%list
   = [ (["s"], true, false); ([], false, true) ].
@@ -256,15 +292,15 @@ Print Assumptions interrupts_pass_unwrapped.
 
 (* ... and a step in which a task asks for an interrupt while no task fails ends the run
    interrupted, not failed *)
-Theorem interrupt_is_not_failure : forall F stream rec all loop k st rest items,
+Theorem interrupt_is_not_failure : forall F stream rec all loop br k st rest items,
   let rs := map (fun n => (node_key n, exec_node F stream rec items false n)) st in
   any_fuel rs = false -> all_fails rs = [] -> any_int rs = true -> all_items rs = [] ->
-  steps F stream rec all loop (S k) (st :: rest) items false = GInt.
+  steps F stream rec all loop br (S k) (st :: rest) items false = GInt.
 Proof. exact step_interrupts. Qed.
 
 Example interrupts_nonvacuous :
-  let F := [ mkGraph false [[NSub "s" 1; NLam "p" FI BOk]] false 0;
-             mkGraph false [[NLam "x" FC BRerun]] false 0 ] in
+  let F := [ mkGraph false [[NSub "s" 1; NLam "p" FI BOk]] false 0 BrNone;
+             mkGraph false [[NLam "x" FC BRerun]] false 0 BrNone ] in
   map (fun a => match a with AErr e => (as_internal e, extract_interrupt_gen true e) | _ => (None, false) end)
       (answers F PStream false None)
   = [ (None, true) ].
@@ -286,19 +322,19 @@ Proof. exact tool_panic_is_error. Qed.
 
 (* Hence the run fails (the loop function is total: it ends after at most the step limit), with an
    error carrying the panic and naming the node. *)
-Theorem panic_contained : forall F stream rec all loop k st rest key f i,
+Theorem panic_contained : forall F stream rec all loop br k st rest key f i,
   In (NLam key f (BPanic i)) st ->
   any_fuel (map (fun n => (node_key n, exec_node F stream rec [] false n)) st) = false ->
-  exists es e, steps F stream rec all loop (S k) (st :: rest) [] false = GFail es /\ In e es /\
+  exists es e, steps F stream rec all loop br (S k) (st :: rest) [] false = GFail es /\ In e es /\
                as_panic e = Some i /\ np_of e = [key].
 Proof. exact panicking_node_fails_run. Qed.
 Print Assumptions panic_contained.
 
-Theorem panic_contained_tools_run : forall F stream rec all loop k st rest key ts i,
+Theorem panic_contained_tools_run : forall F stream rec all loop br k st rest key ts i,
   In (NTools key ts) st -> In (TPanic i) ts ->
   any_fuel (map (fun n => (node_key n, exec_node F stream rec [] false n)) st) = false ->
   (forall es e, exec_tools stream [] ts = NErr es -> In e es -> is_interrupt_task e = false) ->
-  exists es, steps F stream rec all loop (S k) (st :: rest) [] false = GFail es /\ es <> [].
+  exists es, steps F stream rec all loop br (S k) (st :: rest) [] false = GFail es /\ es <> [].
 Proof. exact panicking_tool_fails_run. Qed.
 
 (* A panic in a stream-forwarding goroutine (schema/stream.go toStream: every merge of two or more
@@ -322,11 +358,49 @@ Theorem panic_contained_tool_forwarder : forall ts, (2 <= List.length ts)%nat ->
   forall i, In (TConvPanic i) ts -> In (IErr (PanicErr i)) (tool_conv_panics ts).
 Proof. exact tools_forwarder_lemma. Qed.
 
+(* The forwarders on their own (Model/ErrorsFwd.v, driven directly by the FwdCase cases of the
+   correspondence: MergeStreamReaders over convert readers, pipes, arrays and copy children).
+   Behind a forwarder a reader finds exactly what it would find reading the source directly, with
+   the panic replaced by ONE error item carrying the payload, after which the stream ends ... *)
+Theorem forwarder_contains_panic : forall src, fwd src = contained (direct src).
+Proof. exact fwd_is_direct_contained_lemma. Qed.
+
+Theorem forwarder_panic_item : forall pre i post, existsb is_boom pre = false ->
+  fwd (pre ++ SBoom i :: post) = (fwd pre ++ [RErr (PanicErr i)])%list /\
+  direct (pre ++ SBoom i :: post) = DPanic (fwd pre) i.
+Proof. exact fwd_boom_lemma. Qed.
+
+(* ... and whatever the interleaving the scheduler produces, the merged stream delivers the panic
+   of every panicking source as an error item, every item of every member, each member in its
+   own order, and nothing else: it ends after exactly that many items (no hang, nothing
+   swallowed). *)
+Theorem merged_forwarders : forall srcs out, interleaving (map fwd srcs) out ->
+  (forall s pre i post, In s srcs -> s = (pre ++ SBoom i :: post)%list -> existsb is_boom pre = false ->
+     In (RErr (PanicErr i)) out) /\
+  (forall s x, In s srcs -> In x (fwd s) -> In x out) /\
+  (forall s, In s srcs -> subseq (fwd s) out) /\
+  List.length out = total_length (map fwd srcs).
+Proof. exact merged_forwarders_lemma. Qed.
+Print Assumptions merged_forwarders.
+
+(* the boolean the correspondence evaluates on every forwarder case implies the relation above *)
+Theorem merge_checker_sound : forall out ls, is_interleaving ls out = true -> interleaving ls out.
+Proof. exact is_interleaving_sound. Qed.
+
+Example merged_forwarders_nonvacuous :
+  let s1 := [SVal 1; SItem (Custom 0 2); SBoom 3; SVal 4] in
+  let s2 := [SVal 10; SSkip; SVal 12] in
+  let out := [RVal 10; RVal 1; RErr (Custom 0 2); RVal 12; RErr (PanicErr 3)] in
+  fwd_legal [s1; s2] (FOut out) = true /\ direct s1 = DPanic [RVal 1; RErr (Custom 0 2)] 3 /\
+  fwd_legal [s1; s2] (FOut [RVal 10; RVal 1; RErr (Custom 0 2); RVal 12]) = false.
+Proof. repeat split; vm_compute; reflexivity. Qed.
+
 (* Globally: in every forest of nested graphs, for every paradigm, input and cancellation,
    whichever node bodies and tool calls panic (any number, any depth), no panic reaches the caller
-   of the run and no stream the caller gets panics when read.  (The hypothesis excludes only the
-   streams whose own convert function panics on the goroutine of whoever reads them — user code
-   running on the reader's goroutine, outside the three places the property names.) *)
+   of the run and no stream the caller gets panics when read.  (The hypothesis [conv_free] excludes
+   only user code that runs outside the three places the property names: streams whose own convert
+   function panics on the goroutine of whoever reads them, and a panicking branch condition of the
+   TOP graph — below the top level a panicking condition is allowed: the parent contains it.) *)
 Theorem no_panic_escapes : forall F p cancel_before in_item,
   conv_free F = true -> ~ In APanic (answers F p cancel_before in_item).
 Proof. exact no_panic_escapes_lemma. Qed.
@@ -337,16 +411,35 @@ Print Assumptions no_panic_escapes.
    the caller's goroutine (described by the model, outside the property, excluded above); the
    nested example forest of the first section satisfies the hypothesis of [no_panic_escapes] *)
 Example forwarder_nonvacuous :
-  let F2 := [ mkGraph false [[NLam "a" FS (BConvPanic 5); NLam "b" FS BOk]] false 0 ] in
-  let F1 := [ mkGraph false [[NLam "a" FS (BConvPanic 5)]] false 0 ] in
+  let F2 := [ mkGraph false [[NLam "a" FS (BConvPanic 5); NLam "b" FS BOk]] false 0 BrNone ] in
+  let F1 := [ mkGraph false [[NLam "a" FS (BConvPanic 5)]] false 0 BrNone ] in
+  let F3 := [ mkGraph false [[NSub "s" 1; NLam "p" FI (BPanic 2)]] false 0 BrNone;
+              mkGraph false [[NLam "x" FI BOk]] true 0 (BrPanic 7) ] in
   (map (fun a => match a with AItem e => as_panic e | _ => None end) (answers F2 PStream false None),
-   answers F1 PStream false None, conv_free F2, conv_free ex_forest)
-  = ([Some 5%N], [APanic], false, true).
+   answers F1 PStream false None, conv_free F2, conv_free ex_forest, conv_free F3)
+  = ([Some 5%N], [APanic], false, true, true).
+Proof. vm_compute. reflexivity. Qed.
+
+(* a panic that leaves the run of a sub-graph (a panicking branch condition, a panicking stream the
+   run loop itself reads) is contained one level up: the executor of the sub-graph's node turns
+   it into that node's error (in stream mode the payload is that of a second panic raised by the
+   deferred function of runner.run, [masked_payload]) *)
+Theorem sub_run_panic_contained : forall F stream rec items canc k gi g' i,
+  nth_error F gi = Some g' -> rec g' items canc = GPanic i ->
+  exists j, exec_node F stream rec items canc (NSub k gi) = NErr [PanicErr j].
+Proof. exact sub_run_panic_contained_lemma. Qed.
+
+Example sub_run_panic_nonvacuous :
+  let F := [ mkGraph false [[NSub "s" 1]] false 0 BrNone;
+             mkGraph false [[NLam "x" FI BOk]] true 0 (BrPanic 7) ] in
+  map (fun a => match a with AErr e => (np_of e, as_panic e) | _ => ([], None) end)
+      (answers F PInvoke false None ++ answers F PTransform false None)%list
+  = [ (["s"], Some 7%N); (["s"], Some masked_payload) ].
 Proof. vm_compute. reflexivity. Qed.
 
 Example panic_nonvacuous :
-  let F := [ mkGraph false [[NSub "t" 1; NLam "q" FS (BPanic 4)]] false 0;
-             mkGraph false [[NLam "pre" FI BOk]; [NTools "tn" [TOk; TPanic 9]]; [NLam "post" FI BOk]] false 0 ] in
+  let F := [ mkGraph false [[NSub "t" 1; NLam "q" FS (BPanic 4)]] false 0 BrNone;
+             mkGraph false [[NLam "pre" FI BOk]; [NTools "tn" [TOk; TPanic 9]]; [NLam "post" FI BOk]] false 0 BrNone ] in
   map (fun a => match a with AErr e => (np_of e, as_panic e) | _ => ([], None) end)
       (answers F PInvoke false None)
   = [ (["t"; "tn"], Some 9%N); (["q"], Some 4%N) ].
